@@ -1,6 +1,7 @@
 package symgo
 
 import (
+	"encoding/json"
 	"fmt"
 	"go/parser"
 	"go/token"
@@ -113,6 +114,30 @@ func Overlay(repoDir, harnessDir, pkg string, native bool) (map[string][]byte, e
 				needDoc = true
 			}
 			ov[filepath.Join(pkgDir, e.Name())] = b
+		}
+	}
+	// renames.json: textual renames applied to the package's own files (current /repo text), used to
+	// take a function out of the way so that a harness-provided stub of the same name replaces it
+	// (RPC transport, storage construction). A pattern that no longer matches is an error.
+	if rb, err := os.ReadFile(filepath.Join(hd, "renames.json")); err == nil {
+		var ren map[string][][2]string
+		if err := json.Unmarshal(rb, &ren); err != nil {
+			return nil, fmt.Errorf("renames.json: %v", err)
+		}
+		for file, pairs := range ren {
+			path := filepath.Join(pkgDir, file)
+			src, err := os.ReadFile(path)
+			if err != nil {
+				return nil, err
+			}
+			text := string(src)
+			for _, pr := range pairs {
+				if strings.Count(text, pr[0]) != 1 {
+					return nil, fmt.Errorf("renames.json: pattern %q occurs %d times in %s (expected once)", pr[0], strings.Count(text, pr[0]), file)
+				}
+				text = strings.Replace(text, pr[0], pr[1], 1)
+			}
+			ov[path] = []byte(text)
 		}
 	}
 	ov[filepath.Join(pkgDir, "zz_verif_rt_sym.go")] = []byte(RTSym(name, needDoc))
